@@ -52,10 +52,12 @@ func (r *run) detectAndStruct() {
 		detect(f[:9])
 	}
 	// ---- garbage, empty and truncated files through the whole verify path
+	nTrunc := 0
 	for _, sf := range r.signed {
-		if !sf.verifies || c.Rng.Intn(3) != 0 {
+		if !sf.verifies || c.Rng.Intn(3) != 0 || nTrunc >= c.Scale(14, 400) {
 			continue
 		}
+		nTrunc++
 		for _, n := range []int{0, 8, 9, sf.lay.signedEnd, sf.lay.ksOff + 1, sf.lay.keyData[1], sf.lay.sigData[0], len(sf.file) - 1} {
 			if n < 0 || n > len(sf.file) {
 				continue
